@@ -169,8 +169,31 @@ def macro_family(oid, vi, lv, sval, vval, name, fargs):
     ]
 
 
+def ref_value(name):
+    if name in ("number", "currency"):
+        return NUM_VALUES[0][0]
+    if name == "date":
+        return "Date::try_new_iso_date(%d, %d, %d).unwrap().to_any()" % DATE_VALUES[0]
+    if name == "time":
+        return "Time::try_new(%d, %d, %d, 0).unwrap()" % TIME_VALUES[0]
+    if name == "datetime":
+        return "DateTime::new(Date::try_new_iso_date(%d, %d, %d).unwrap().to_any(), Time::try_new(%d, %d, %d, 0).unwrap())" % (DATE_VALUES[0] + TIME_VALUES[0])
+    return "[%s]" % ", ".join(e2e.rust_str(x) for x in LIST_VALUES[0])
+
+
+def ref_lines(oid, lv, i, name):
+    """value #0 through `g<i>` = "ref $t(f<i>)" and `h<i>` = $t(w<i>, {"who": "ref"}) with w<i> = "{{ who }} owes {{ v, fmt }}"."""
+    val = ref_value(name)
+    return [
+        '    emit(%d, "rs0", &td_string!(%s, g%d, v = %s).to_string().replacen("ref ", "", 1));' % (oid, lv, i, val),
+        '    emit(%d, "rv0", &html(td!(%s, g%d, v = move || %s)).replacen("ref ", "", 1));' % (oid, lv, i, val),
+        '    emit(%d, "rh0", &td_string!(%s, h%d, v = %s).to_string().replacen("ref owes ", "", 1));' % (oid, lv, i, val),
+    ]
+
+
 FLAVOUR_NAMES = {"s": "td_string", "v": "td", "m": "td_format_string", "md": "td_format_display", "mv": "td_format", "mc": "t_format_string",
-                 "mu": "tu_format_display", "mw": "t_format"}
+                 "mu": "tu_format_display", "mw": "t_format", "rs": "td_string-through-foreign-key", "rv": "td-through-foreign-key",
+                 "rh": "td_string-through-foreign-key-with-args"}
 
 
 def e2e_stage(res, tier, seed):
@@ -185,6 +208,10 @@ def e2e_stage(res, tier, seed):
     tree = []
     for i, (name, args, dbg, canon) in enumerate(cfgs):
         tree.append(["f%d" % i, {"k": "tmpl", "segs": [fmt_seg(name, list(args), rng.random() < 0.5)]}])
+        # the same formatted variable reached through a foreign key, plain and with an argument for another variable
+        tree.append(["g%d" % i, {"k": "tmpl", "segs": [{"s": "text", "v": "ref "}, {"s": "fk", "ns": None, "path": ["f%d" % i], "args": None}]}])
+        tree.append(["w%d" % i, {"k": "tmpl", "segs": [{"s": "var", "name": "who", "fmt": None}, {"s": "text", "v": " owes "}, fmt_seg(name, list(args), True)]}])
+        tree.append(["h%d" % i, {"k": "tmpl", "segs": [{"s": "fk", "ns": None, "path": ["w%d" % i], "args": [["who", {"a": "str", "segs": [{"s": "text", "v": "ref"}]}]]}]}])
     proj = {"cfg": {"default": locs[0], "locales": list(locs), "namespaces": None, "inherits": {}, "locales_dir": None},
             "data": {(None, l): tree for l in locs}}
     c = e2e.ProbeCrate("c18_0", proj)
@@ -236,6 +263,7 @@ def e2e_stage(res, tier, seed):
                         oid, vi, ls, arr, e2e.rust_str(canon[1]), canon[2], oid, vi, lv, key, arr, oid, vi, lv, key, arr))
                     if macro_ok:
                         lines += macro_family(oid, vi, lv, arr, arr, name, fargs)
+            lines += ref_lines(oid, lv, i, name)
             c.add("\n".join(lines), {"name": name, "args": args, "canon": canon, "locale": loc})
     root = e2e.write_workspace("c18", [c], seed=seed)
     status, secs, _ = e2e.build_workspace(root, [c])
@@ -267,12 +295,12 @@ def e2e_stage(res, tier, seed):
         while "exp%d" % vi in got:
             want = got["exp%d" % vi]["v"]
             texts.setdefault((exp["name"], exp["locale"], vi), {}).setdefault(exp["canon"], want)
-            for fl in ("s", "v", "m", "md", "mv", "mc", "mu", "mw"):
+            for fl in ("s", "v", "m", "md", "mv", "mc", "mu", "mw", "rs", "rv", "rh"):
                 o = got.get("%s%d" % (fl, vi))
                 if o is None:
                     continue
                 res.ev()
-                text = e2e.normalise_html(o["v"]) if fl in ("v", "mv", "mw") else o["v"]
+                text = e2e.normalise_html(o["v"]) if fl in ("v", "mv", "mw", "rv") else o["v"]
                 res.count("e2e:%s:%s" % (exp["name"], FLAVOUR_NAMES[fl]))
                 if exp["args"]:
                     res.nontriv([exp["canon"], exp["locale"], vi])
